@@ -5,7 +5,7 @@
    gateway's answers (internal.go's resolvers) are compared with it on every generated merged
    schema and selection (oracle c14_holds, Gw/IntrospectCheck.v). *)
 From Coq Require Import String List Bool Arith.
-From GW Require Import Base.Json Gql.Syntax Gql.Schema Gql.Spec Gw.Introspect Proofs.IntrospectProofs.
+From GW Require Import Base.Json Gql.Syntax Gql.Schema Gql.Spec Gw.Introspect Proofs.IntrospectProofs Proofs.IntrospectExact.
 Import ListNotations.
 Open Scope string_scope.
 Open Scope list_scope.
@@ -38,6 +38,43 @@ Theorem C14_wrapper_levels : forall isch frags vars fuel inner d,
 Proof. intros. split; [apply level_nonnull|apply level_list]. Qed.
 Print Assumptions C14_wrapper_levels.
 
+(* What introspection says about a type is the type.  The answer to the full selection of a __Type
+   (the FullType fragment of the canonical introspection query, type references followed to depth
+   D) lists exactly the fields (those whose name does not start with "__"), their arguments with
+   types and default values, the input fields, interfaces, enum values and possible types of the
+   definition, deprecated ones included, in the definition's order ... *)
+Theorem C14_full_type_answer_lists_exactly_the_definition : forall isch frags vars D d,
+  intro_type isch frags vars (3 + D) (TDef d) (full_type_sel D) = full_type_json isch frags vars D d.
+Proof. exact full_type_answer. Qed.
+Print Assumptions C14_full_type_answer_lists_exactly_the_definition.
+
+(* ... and reading it back gives the definition: kind, name, every field with its arguments
+   (name, type, default value), type and deprecation flag, the input fields, the interfaces, the
+   enum values, the possible types.  wf_type: the definition's type references name defined types
+   and are wrapped at most D deep; its interfaces and possible types are defined. *)
+Theorem C14_full_type_round_trip : forall isch frags vars D d,
+  wf_type isch D d ->
+  dec_type D (intro_type isch frags vars (3 + D) (TDef d) (full_type_sel D)) = Some (proj_type isch d).
+Proof. exact full_type_round_trip. Qed.
+Print Assumptions C14_full_type_round_trip.
+
+(* The schema-level round trip: { __schema { types { ...FullType } } } read back is the list of
+   the schema's type definitions, in order -- a schema rebuilt from the introspection result has
+   the same types, fields, arguments, defaults, interfaces, enum values and possible types. *)
+Theorem C14_schema_round_trip : forall isch frags vars D,
+  Forall (wf_type isch D) (s_types (is_schema isch)) ->
+  obind (field_of "types" (intro_schema isch frags vars (3 + D) [fld "types" (full_type_sel D)])) (dec_list (dec_type D)) =
+  Some (map (proj_type isch) (s_types (is_schema isch))).
+Proof. exact full_schema_round_trip. Qed.
+Print Assumptions C14_schema_round_trip.
+
+(* Directive definitions: name, locations, repeatability and arguments read back are the definition's. *)
+Theorem C14_directive_round_trip : forall isch frags vars D d,
+  Forall (fun a => wf_ref isch D (ad_type a)) (dd_args d) ->
+  dec_dir D (intro_directive isch frags vars (2 + D) d (directive_sel D)) = Some (proj_dir isch d).
+Proof. exact directive_round_trip. Qed.
+Print Assumptions C14_directive_round_trip.
+
 Example C14_nonvacuous :
   let user := {| df_kind := KObject; df_name := "User"; df_desc := ""; df_fields := []; df_ifaces := [];
                  df_members := []; df_enums := []; df_dirs := [] |} in
@@ -46,3 +83,24 @@ Example C14_nonvacuous :
   let t := TList (TList (TNamed "User" true) false) true in
   ty_of_json 5 (below isch [] [] 6 t 4) = Some t.
 Proof. vm_compute. reflexivity. Qed.
+
+(* the round trip on a small schema: an object with an argument, a list type, an interface, an enum *)
+Example C14_round_trip_nonvacuous :
+  let f n t args := {| fd_name := n; fd_desc := ""; fd_type := Some t; fd_args := args; fd_default := None; fd_dirs := [] |} in
+  let d k n fs ifs evs := {| df_kind := k; df_name := n; df_desc := ""; df_fields := fs; df_ifaces := ifs; df_members := [];
+                             df_enums := evs; df_dirs := [] |} in
+  let scalar n := d KScalar n [] [] [] in
+  let node := d KInterface "Node" [f "id" (TNamed "ID" true) []] [] [] in
+  let role := d KEnum "Role" [] [] [{| ev_name := "ADMIN"; ev_desc := ""; ev_dirs := [] |};
+                                    {| ev_name := "GUEST"; ev_desc := ""; ev_dirs := [{| da_name := "deprecated"; da_args := [] |}] |}] in
+  let user := d KObject "User" [f "id" (TNamed "ID" true) [];
+                                f "friends" (TList (TNamed "User" true) false)
+                                  [{| ad_name := "first"; ad_desc := ""; ad_type := Some (TNamed "Int" false);
+                                      ad_default := Some {| gv_kind := 1; gv_str := "10" |}; ad_dirs := [] |}];
+                                f "role" (TNamed "Role" false) []] ["Node"] [] in
+  let isch := {| is_schema := {| s_types := [scalar "ID"; scalar "Int"; node; role; user]; s_dirs := [] |}; is_desc := "";
+                 is_query := ""; is_mutation := ""; is_subscription := ""; is_repeatable := []; is_possible := [("Node", ["User"])] |} in
+  obind (field_of "types" (intro_schema isch [] [] (3 + 2) [fld "types" (full_type_sel 2)])) (dec_list (dec_type 2)) =
+  Some (map (proj_type isch) (s_types (is_schema isch))) /\
+  map (fun p => List.length (pt_fields p)) (map (proj_type isch) (s_types (is_schema isch))) = [0; 0; 1; 0; 3].
+Proof. vm_compute. split; reflexivity. Qed.
